@@ -79,6 +79,11 @@ CHECKS = {
     technique="TLC model-checks the design lemma (sorted matching attains the 1-D transport minimum over all bijections); recorded sessions validated by TLC with an exact rational value for M in {1,2} directions and the property's laws for all M",
     text="SortedIsOptimal, CommonValueIrrelevant and CostSymmetric hold for all pairs of sequences of length <=4 (thorough 5) over 0..3. For M in {1,2} the directions are (0,1) and (-1,0): TLC computes SW exactly (each diagram augmented with the diagonal projections of the other) and requires agreement to 1e-6, on diagrams with coordinates of either sign and 7 embeddings. For M in {1,2,3,5,10,50,60}: finite, >= 0, zero on reorderings, symmetry, triangle, diagonal points ignored, diagonal translation also into negative coordinates, linear scaling, empty diagrams, SW <= 2 W1.",
     note="The code keeps direction vectors in float32, so equalities are granted 1e-6 of the largest coordinate magnitude times the number of points (stated in evidence). Absolute values only for M in {1,2}. The unsigned diagonal projection defect is repaired in /repo and recorded as fixed."),
+ "C13": dict(
+    cat="exploration", ref="DESIGN.md 5/C13",
+    technique="TLA+ law table (TraceKernel.tla) evaluated by TLC in fixed point on recorded evaluation grids of the kernel CDFs: CDF laws, Phi-table marginals, exact anchors at rational-asin correlations in every algorithm branch, reflection identity, cross-algorithm seams at every branch threshold, high-correlation limit, exact rational box CDF",
+    text="For 17..21 correlations (five with asin(rho)/(2 pi) rational, one in each quadrature regime and one above 0.925; values on both sides of 0.3, 0.75, 0.925; up to 0.999) and their negatives, means (0,0)/(3,-2) and variances from 1e-4 to 1e4, the kernel is evaluated on a 17x17 lattice reaching 10 standard deviations; TLC checks range, monotonicity in each argument, non-negative rectangle mass, tails, both marginals against the Phi table (1e-7), the value at the mean, the reflection identity, agreement of the two algorithms across every branch threshold (bound verified by squaring), the |rho|->1 limit, zero-covariance forms (gaussian, sbvn_cdf, norm_cdf) against the Phi table to 1e-12 and the uniform kernel against the exact box CDF.",
+    note="NOT decided: agreement with an independent bivariate normal reference at arbitrary interior (h,k,rho) to 1e-7 -- TLA+ cannot integrate a 2-D density; a change that keeps marginals, anchors, reflection, seams and limits and is wrong elsewhere by < 1e-3 would be missed. No state space: exploration level. The |rho|>=0.925 defect is repaired in /repo and recorded as fixed."),
 }
 
 NOT_APPLICABLE_REASON = "check under construction in this round; see DESIGN.md section 5"
